@@ -12,7 +12,7 @@ class predicates of the open findings, evaluated with the PINNED quoting trigger
 * `fromkv <text>` → `ok <hex>` | `err`; `askv <fields>` → `ok <hex>` | `panic`; `check <fields>` → `0|1`
 * `frt <text>` → `<rej|same|err|diff|panic> wf=<0|1> safe=<0|1> qsafe=<0|1> long=<0|1> kv=<hex>`; `fsafe <fields>` → `0|1`
      (`NewFieldsFromKVString`, `AsKVString`, `NewFieldsFromKVString` again; `long` = some decoded piece > 255 bytes)
-* `prov <k> <v> …` → `<same|diff|err> qkey=<0|1> [items=<fields>]`       (`field.Parse(MapToSet(m).Line())` vs the pairs; `qkey` = a name starts with a quote)
+* `prov <k> <v> …` → `<same|diff|err> qkey=<0|1> long=<0|1> [items=<fields>]`       (`field.Parse(MapToSet(m).Line())` vs the pairs; `qkey` = a name starts with a quote)
 * `safe <k> <v> …` → `0|1`
 -/
 open Go Logrange Logrange.Quote Logrange.KV Logrange.Tags Logrange.FieldsKV Driver
@@ -55,9 +55,11 @@ def step (_ : Unit) (toks : List String) : Unit × String :=
     -- pipe provenance: `field.Parse(srcTags)` must list the pairs of the set
     let m := Map.ofPairs (pairsOfToks kvs)
     let qkey := m.any (fun p => p.1.head? == some DQ || p.1.head? == some BQ)
+    -- a name, a value or a printed value that does not fit a field (tags have no length limit, fields have)
+    let long := m.any (fun p => p.1.length > maxLen || p.2.length > maxLen || (encTag p.2).length > maxLen)
     (match fromKVItems (line m) with
-     | none => s!"err qkey={b01 qkey}"
-     | some items => s!"{if items = flat m then "same" else "diff"} qkey={b01 qkey} items={hex (encodeItems items)}")
+     | none => s!"err qkey={b01 qkey} long={b01 long}"
+     | some items => s!"{if items = flat m then "same" else "diff"} qkey={b01 qkey} long={b01 long} items={hex (encodeItems items)}")
   | "safe" :: kvs => b01 (safePinned (Map.ofPairs (pairsOfToks kvs)))
   | ["fromkv", s] => (match fromKV (unhex s) with | some r => "ok " ++ hex r | none => "err")
   | ["askv", s] => (match asKV (unhex s) with | .ok r => "ok " ++ hex r | .panic => "panic")
